@@ -344,14 +344,15 @@ class FileIndex(object):
         else:
             # Note: The index stores only the integer part of the timestamp.
 
-            # If self._data['time'] ends _before_ `start``, use 0 as start_idx. If self._data['time'] ends _after_
-            # `end`, use len(self._data['time']) as end_idx.
+            # If self._data['time'] ends _before_ `start`, there is nothing at or after `start`: use
+            # len(self._data['time']) as start_idx (an empty result). If self._data['time'] ends _before_ `end`, use
+            # len(self._data['time']) as end_idx.
             with np.errstate(invalid='ignore'):
                 start_idx = find_first(self._data['time'] >= np.floor(start)) if start is not None else 0
                 end_idx = find_first(self._data['time'] >= stop) if stop is not None else len(self._data)
 
             if start_idx < 0:
-                start_idx = 0
+                start_idx = len(self._data['time'])
 
             if end_idx < 0:
                 end_idx = len(self._data['time'])
